@@ -218,6 +218,16 @@ def try_of_outer(node, t):
         n = getattr(n, "_parent", None)
     return None
 
+    # ---------------- the scheduler runs inside local_callbacks: the active set is restored on failure too
+    cbm = ctx.model.module("dask/callbacks.py")
+    lc = cbm.func("local_callbacks")
+    ys = [n for n in ast.walk(lc) if isinstance(n, ast.Yield)]
+    ok = len(ys) == 1
+    if ok:
+        t_, part_ = try_of(enclosing_stmt(ys[0]))
+        ok = t_ is not None and part_ == "body" and bool(t_.finalbody) and "Callback.active = callbacks" in unparse(ast.Module(body=t_.finalbody, type_ignores=[]))
+    ctx.ob("SCOPE.local-callbacks.finally", lc, "local_callbacks restores Callback.active in a finally around the yield (also when the scheduler raises)", ok, "" if ok else "after a failing computation the globally active callbacks stay swapped out: later computations call none of them")
+
 
 VARIANTS = [
     (LOCAL, "            succeeded = True\n\n        finally:\n", "            pass\n\n        finally:\n            succeeded = True\n", "MPT.succeeded-last"),
